@@ -65,7 +65,7 @@ func TestVF_C09(t *testing.T) {
 		"Each request is first answered without limits (true N_series, N_chunks of the merged answer), then re-issued with series and/or chunk limits drawn from {N-1, N, N+1, 1, 2N, N/2}; lazy-postings settings and series batch size (1,2,10000) are drawn per request. " +
 		"oracle: a successful limited call returns at most limit series/chunks and exactly the unlimited answer; if N exceeds a limit the call must fail and the gRPC code must be ResourceExhausted. Failing although N <= limit is counted, not flagged " +
 		"(limiters reserve per block before merging and, on the eager path, before time filtering). evaluation = one limited call; distinct/non-trivial = limited call on a request with N_series > 0")
-	nFix := r.N(6, 40)
+	nFix := r.N(6, 80)
 	nReq := r.N(40, 100)
 	r.Require(int64(nFix*nReq*2), nFix*nReq/2)
 	r.Assume("limit 0 means unlimited (documented); the unlimited answer of the same store instance is the true answer (its correctness is C10's subject)")
